@@ -95,19 +95,19 @@ theorem bounds_respected {c : Ctx} {op : Nat} {d rest : Bytes} {st st' : St}
   Lemmas.stepOp_ok_bounds h
 
 /-- Element size: if every element of stack and altstack is ≤ 520 bytes before a step, the same holds after
-it — for every opcode (pushes are checked, numeric / boolean results are ≤ 10 bytes, everything else copies,
-moves or drops elements). The hash opcodes' output lengths (20 / 32 bytes) enter as the hypothesis
-`HashLens` (≤ 520), since the Lean reference hash functions are not reasoned about. -/
-theorem bounds_respected_elements (H : Lemmas.HashLens) {c : Ctx} {op : Nat} {d rest : Bytes} {st st' : St}
+it — for every opcode (pushes are checked, numeric / boolean results are ≤ 10 bytes, hash results are 20 or 32
+bytes — proved for the model's own SHA-256 / SHA-1 / RIPEMD-160 —, everything else copies, moves or drops
+elements). -/
+theorem bounds_respected_elements {c : Ctx} {op : Nat} {d rest : Bytes} {st st' : St}
     (hs : Lemmas.StOk st) (h : stepOp c op d rest st = .ok st') : Lemmas.StOk st' :=
-  Lemmas.stepOp_stOk H hs h
+  Lemmas.stepOp_stOk Lemmas.hashLens_holds hs h
 
 /-- … hence a whole `EvalScript` started on elements ≤ 520 bytes (which `ExecuteWitnessScript` checks for the
 witness stack, and which holds for the empty stack of a scriptSig) ends with elements ≤ 520 bytes. -/
-theorem bounds_respected_elements_script (H : Lemmas.HashLens) {c : Ctx} {script : Bytes}
+theorem bounds_respected_elements_script {c : Ctx} {script : Bytes}
     {stack out : List Bytes} {w : Int} (hs : Lemmas.ElemsOk stack)
     (h : evalScript c script stack w = .ok out) : Lemmas.ElemsOk out :=
-  Lemmas.evalScript_elemsOk H hs h
+  Lemmas.evalScript_elemsOk Lemmas.hashLens_holds hs h
 
 example : Lemmas.StOk { stack := [[1, 2, 3]], code := [] } :=
   ⟨fun e he => by simp at he; subst he; decide, fun e he => by cases he⟩
